@@ -382,6 +382,61 @@ func derivRun(c *dCase) (o *derivOut) {
 	bucketOf := map[int64]int64{}
 	seen := 0 // log entries already processed (cached mode)
 
+	// observe returns the identities (name, tags) under which the value just recorded through a
+	// metric of the given kind arrived: the arguments of the Report* calls of one report pass
+	// (plain), those of the Allocate* call of the handle that received the report (cached), or the
+	// snapshot entry that changed (test).
+	observe := func(kind int, mark int, before map[string]snapEnt) []delivery {
+		var ds []delivery
+		switch c.Rep {
+		case "test":
+			after := snapEntries(root.(tally.TestScope).Snapshot(), kind)
+			for id, e := range after {
+				if b, ok := before[id]; !ok || b.val != e.val || !sameDelivery(b.d, e.d) {
+					ds = append(ds, e.d)
+				}
+			}
+		case "cached":
+			tally.VerifReportOnce(root)
+			evs := log.Snapshot()
+			for _, e := range evs[seen:] {
+				switch {
+				case e.K >= 11 && e.K <= 14:
+					allocs[e.I[0]] = e
+				case e.K == 24 || e.K == 25:
+					bucketOf[e.I[3]] = e.I[0]
+				}
+			}
+			seen = len(evs)
+			for _, e := range evs[mark:] {
+				switch {
+				case e.K >= 21 && e.K <= 23:
+					if a, ok := allocs[e.I[0]]; ok && a.K == e.K-10 {
+						ds = append(ds, deliveryOf(a))
+					} else {
+						fail("delivery_through_allocated_handle", "report %v on a handle that was never allocated with that kind", e)
+					}
+				case e.K == 26:
+					if a, ok := allocs[bucketOf[e.I[0]]]; ok && a.K == 14 {
+						ds = append(ds, deliveryOf(a))
+					}
+				}
+			}
+		default:
+			tally.VerifReportOnce(root)
+			for _, e := range log.Snapshot()[mark:] {
+				if e.K >= 1 && e.K <= 5 && e.K == []int{0, 1, 2, 3, 4}[kind] {
+					ds = append(ds, deliveryOf(e))
+				} else if e.K >= 1 && e.K <= 5 {
+					fail("delivery_kind", "a %d-kind metric was delivered through call kind %d", kind, e.K)
+				}
+			}
+		}
+		return ds
+	}
+	snapsTaken := 0
+	var prevSnap [5][]delivery
+
 	for _, op := range c.Ops {
 		if op.H < 0 || op.H >= len(scopes) {
 			continue
@@ -436,6 +491,60 @@ func derivRun(c *dCase) (o *derivOut) {
 			scopes = append(scopes, s)
 			o.scopeCls = append(o.scopeCls, cls)
 			o.obs = append(o.obs, Ev{K: 1, I: []int64{int64(cls)}})
+		case "snap":
+			// Snapshot(): every entry's tag map is handed to the caller, who may do with it what he
+			// likes ("the tags delivered for one scope never change over its lifetime"): the entries
+			// of an earlier snapshot must reappear with the same name and tags, then the harness
+			// writes into every map it got
+			sn := root.(tally.TestScope).Snapshot()
+			var cur [5][]delivery
+			var maps []map[string]string
+			for _, e := range sn.Counters() {
+				cur[1] = append(cur[1], delivery{Name: e.Name(), Tags: copyMap(e.Tags()), ok: true})
+				maps = append(maps, e.Tags())
+			}
+			for _, e := range sn.Gauges() {
+				cur[2] = append(cur[2], delivery{Name: e.Name(), Tags: copyMap(e.Tags()), ok: true})
+				maps = append(maps, e.Tags())
+			}
+			for _, e := range sn.Timers() {
+				cur[3] = append(cur[3], delivery{Name: e.Name(), Tags: copyMap(e.Tags()), ok: true})
+				maps = append(maps, e.Tags())
+			}
+			for _, e := range sn.Histograms() {
+				cur[4] = append(cur[4], delivery{Name: e.Name(), Tags: copyMap(e.Tags()), ok: true})
+				maps = append(maps, e.Tags())
+			}
+			for k := 1; k <= 4; k++ {
+				for _, was := range prevSnap[k] {
+					found := false
+					for _, is := range cur[k] {
+						found = found || sameDelivery(was, is)
+					}
+					if !found {
+						fail("tags_never_change_over_lifetime", "snapshot %d no longer shows the kind-%d entry %q with tags %q of the snapshot before it, whose tag maps the caller had modified; it shows %v", snapsTaken, k, was.Name, was.Tags, cur[k])
+					}
+				}
+			}
+			prevSnap = cur
+			snapsTaken++
+			for _, m := range maps {
+				ks := make([]string, 0, len(m))
+				for k := range m {
+					ks = append(ks, k)
+				}
+				sort.Strings(ks)
+				for i, k := range ks {
+					if i == 0 && op.Kind != 2 {
+						delete(m, k)
+					} else {
+						m[k] = "SNAPMUT"
+					}
+				}
+				if m != nil && op.Kind != 1 {
+					m["zzsnap"] = "SNAPMUT"
+				}
+			}
 		case "met":
 			o.in = append(o.in, Ev{K: 3, I: []int64{int64(op.H), int64(op.Kind)}, S: []string{string(op.Name)}})
 			mark := log.Len()
@@ -463,51 +572,7 @@ func derivRun(c *dCase) (o *derivOut) {
 				h = x
 			}
 			var d delivery
-			var ds []delivery
-			switch c.Rep {
-			case "test":
-				after := snapEntries(root.(tally.TestScope).Snapshot(), op.Kind)
-				for id, e := range after {
-					if b, ok := before[id]; !ok || b.val != e.val || !sameDelivery(b.d, e.d) {
-						ds = append(ds, e.d)
-					}
-				}
-			case "cached":
-				tally.VerifReportOnce(root)
-				evs := log.Snapshot()
-				for _, e := range evs[seen:] {
-					switch {
-					case e.K >= 11 && e.K <= 14:
-						allocs[e.I[0]] = e
-					case e.K == 24 || e.K == 25:
-						bucketOf[e.I[3]] = e.I[0]
-					}
-				}
-				seen = len(evs)
-				for _, e := range evs[mark:] {
-					switch {
-					case e.K >= 21 && e.K <= 23:
-						if a, ok := allocs[e.I[0]]; ok && a.K == e.K-10 {
-							ds = append(ds, deliveryOf(a))
-						} else {
-							fail("delivery_through_allocated_handle", "report %v on a handle that was never allocated with that kind", e)
-						}
-					case e.K == 26:
-						if a, ok := allocs[bucketOf[e.I[0]]]; ok && a.K == 14 {
-							ds = append(ds, deliveryOf(a))
-						}
-					}
-				}
-			default:
-				tally.VerifReportOnce(root)
-				for _, e := range log.Snapshot()[mark:] {
-					if e.K >= 1 && e.K <= 5 && e.K == []int{0, 1, 2, 3, 4}[op.Kind] {
-						ds = append(ds, deliveryOf(e))
-					} else if e.K >= 1 && e.K <= 5 {
-						fail("delivery_kind", "a %d-kind metric was delivered through call kind %d", op.Kind, e.K)
-					}
-				}
-			}
+			ds := observe(op.Kind, mark, before)
 			if len(ds) == 0 {
 				fail("metric_is_delivered", "op %v: nothing was delivered for the recorded value", op)
 			} else {
@@ -536,6 +601,42 @@ func derivRun(c *dCase) (o *derivOut) {
 			o.metName = append(o.metName, san.Name(string(op.Name)))
 			o.deliv = append(o.deliv, d)
 			o.obs = append(o.obs, Ev{K: 3, I: []int64{int64(cls)}, S: append([]string{d.Name}, sortedFlat(d.Tags)...)})
+		}
+	}
+	// after a caller wrote into snapshot maps: every metric, used again, must arrive under the
+	// name and tags it arrived under the first time
+	if snapsTaken > 0 {
+		done := map[int]bool{}
+		for i, h := range handles {
+			if done[o.metCls[i]] || !o.deliv[i].ok {
+				continue
+			}
+			done[o.metCls[i]] = true
+			mark := log.Len()
+			var before map[string]snapEnt
+			if c.Rep == "test" {
+				before = snapEntries(root.(tally.TestScope).Snapshot(), o.metKind[i])
+			}
+			switch x := h.(type) {
+			case tally.Counter:
+				x.Inc(3)
+			case tally.Gauge:
+				x.Update(float64(len(handles)+i) + 7.25)
+			case tally.Timer:
+				x.Record(time.Duration(len(handles)+i+1) * time.Second)
+			case tally.Histogram:
+				x.RecordValue(0.5)
+			}
+			ds := observe(o.metKind[i], mark, before)
+			if len(ds) == 0 {
+				fail("tags_never_change_over_lifetime", "metric step %d: used again after the caller modified the tag maps of a snapshot, nothing arrived under its first identity %v", i, o.deliv[i])
+			}
+			for _, d := range ds {
+				if !sameDelivery(d, o.deliv[i]) {
+					fail("tags_never_change_over_lifetime", "metric step %d (scope handle %d): first delivered as %q with tags %q; used again after the caller modified the tag maps obtained from Snapshot() it is delivered as %q with tags %q", i, o.metScope[i], o.deliv[i].Name, o.deliv[i].Tags, d.Name, d.Tags)
+					break
+				}
+			}
 		}
 	}
 	keys := map[string]bool{}
@@ -587,6 +688,9 @@ func derivC04(c *dCase, o *derivOut) []dFail {
 			for k, v := range d.Tags {
 				if k == "zzmut" || v == "MUTATED" {
 					pred = "caller_map_not_retained"
+				}
+				if k == "zzsnap" || v == "SNAPMUT" {
+					pred = "tags_never_change_over_lifetime"
 				}
 			}
 			fs = append(fs, dFail{pred, fmt.Sprintf("metric step %d (scope handle %d): delivered with tags %q, the derivation denotes %q", i, o.metScope[i], d.Tags, id.tags)})
